@@ -343,6 +343,25 @@ func applyOp(root protoreflect.Message, op ROp, hasGetters bool) (ret RRet) {
 			l.Append(proj.ScalarValue(fd.Kind(), op.X))
 		}
 		return rOK()
+	case "ViewClear":
+		var valid func() bool
+		if fd.IsMap() {
+			valid = m.Mutable(fd).Map().IsValid
+		} else {
+			valid = m.Mutable(fd).List().IsValid
+		}
+		m.Clear(fd)
+		return rBool(valid())
+	case "SetInvalid":
+		m.Set(fd, m.Type().New().Get(fd))
+		return rOK()
+	case "LElemKept":
+		l := m.Mutable(fd).List()
+		n := l.Len()
+		e := l.AppendMutable().Message()
+		e.SetUnknown(proj.ToBytes(op.U))
+		l.Truncate(n)
+		return RRet{"bytes", proj.Bytes(e.GetUnknown())}
 	case "MRetained":
 		x := m.Mutable(fd).Map()
 		k := proj.ScalarValue(fd.MapKey().Kind(), op.K).MapKey()
